@@ -129,7 +129,7 @@ def emit_contract(target, W=W, also=()):
              'new-entries-only-for-recipients': z3.ForAll([s, k], z3.Implies(z3.And(outstanding(post, s, k), z3.Not(outstanding(pre, s, k))),
                                                                                 z3.And(may_add(s), cb_val(post, s, k) == callback)))}
         d.update(cb_ok(post))
-        d['issued-kept'] = z3.And(*issued_ok(post).values())
+        d['issued-kept'] = z3.Implies(z3.And(*issued_ok(pre).values()), z3.And(*issued_ok(post).values()))
         return d
 
     def id_ok(pre, post, ns_owner, callback, e):
@@ -179,7 +179,7 @@ def emit_contract(target, W=W, also=()):
     return Contract(
         target=target, also=also, schema=W, self_obj='manager',
         params={'event': 'V', 'data': 'V', 'namespace': 'V', 'room': 'V', 'skip_sid': 'V', 'callback': 'V', 'to': 'V', 'kwargs': empty_kwargs},
-        requires=lambda c: dict(inv_m(c.pre), **dict(dict(cb_ok(c.pre), **issued_ok(c.pre)), **{'dom.room': room_domain(eff_room(c.a.to, c.a.room)),
+        requires=lambda c: dict(inv_m(c.pre), **dict(dict(cb_ok(c.pre), **{k_: v_ for k_, v_ in issued_ok(c.pre).items() if k_ != 'issued.callback-keys'}), **{'dom.room': room_domain(eff_room(c.a.to, c.a.room)),
                                                                       'callback-is-not-the-counter': c.a.callback != COUNTER})),
         cases=cases, env_hook=hook,
         loops={1: LoopSpec(inv_recipients, mod_state=[RAW, OUT], mod_vars=['tasks']),
